@@ -418,6 +418,22 @@ impl Engine {
         }
     }
 
+    /// Soft variant of `require_class` for classes whose frequency depends on choices the
+    /// implementation is free to make (which call a buffered write surfaces in, how permissive
+    /// `Fst::new` is, how many DFA states a construction needs ...): a shortfall is written to
+    /// the evidence as a coverage note and printed, but the run stays conclusive.
+    pub fn expect_class(&self, name: &str, min: u64) {
+        let n = self.class_count(name);
+        if n < min {
+            eprintln!("[{}] NOTE: implementation-dependent class '{}' seen {} times (expected >= {}); not required", self.prop, name, n, min);
+            let mut x = self.extra.lock().unwrap();
+            let e = x.entry("coverage_notes".into()).or_insert_with(|| json!([]));
+            if let Some(a) = e.as_array_mut() {
+                a.push(json!(format!("class '{}' seen {} times, expected >= {} (implementation-dependent, not required)", name, n, min)));
+            }
+        }
+    }
+
     fn merge(&self, rec: Rec, sub: &str) {
         self.evaluations.fetch_add(rec.evaluations, Ordering::SeqCst);
         self.nontrivial_counted.fetch_add(rec.nontrivial_counted, Ordering::SeqCst);
